@@ -2,7 +2,7 @@
 from checks.enginelib import *
 
 META = {
-    "text": 'Lean: component model Floor (locks held from before the balance read until the log is persisted; every committed posting list respects the C01 floor against the balances read; theorem log_floor: at its log position every entry respects the floor against the replay of the entries before it). Tie: every run of the real Commander under the deterministic scheduler must be accepted by the model (trace validation); oracle: fold of the persisted log.',
+    "text": 'Lean: component model Floor (locks held from before the balance read until the log is persisted; the store answers balance reads from the persisted log; every committed posting list touches only accounts in the committer\'s lock sets, sources write-locked and read, and respects the C01 floor against the balances read; reads are consumed by a commit and not taken while the request\'s own log is queued). Theorems (Props/C02.lean, over ALL accepted event sequences): inv_reachable (inductive invariant: lock exclusion, producers of queued logs hold covering locks, recorded reads of write-locked accounts equal the replay of durable++pending, floor fact per entry), log_floor / log_floor_durable / log_floor_at (at its log position every entry added during the run respects the floor against the replay of the entries before it), racing_pair_sum_le / racing_pair_not_both (two debits of one bounded account never jointly exceed what the log prefix provides plus the overdraft), locks_span_persistence, producer_holds_locks, lock_exclusion, reads_are_current, commit_respects_floor_now, funding_is_prefix. Tie: every run of the real Commander under the deterministic scheduler must be accepted by the model (trace validation); oracle: fold of the persisted log.',
     "note": 'Trusted: Lean kernel; the event vocabulary and its extraction from the harness trace; scheduler-native locker implementing the C15 contract; exec_floor per commit is checked on the trace (and proved for Spec under C01), not derived from the VM code.',
     "technique": 'Lean 4 proof (inductive invariant of the Floor component) + trace validation of the real Commander under a deterministic scheduler + log-replay oracle',
     "design_ref": '5 (C02), 3.4, appendix B',
